@@ -41,7 +41,7 @@ def run_unit(unit, tier, known):
                     if k.get("obligation") and fnmatch.fnmatch(r["name"], k["obligation"]) and ("lost_fields" not in k or r.get("meta", {}).get("lost") == k["lost_fields"]): r["known_finding"] = k["id"]
         return _ignore(unit, rep)
     spec = {"modules": unit["modules"], "target": unit["target"], "pop": unit.get("pop", []), "prepare": unit.get("prepare"),
-            "only": unit.get("only"), "known": known,
+            "only": unit.get("only"), "known": known, "export_all": tier == "thorough",
             "timeout_ms": unit.get("timeout_ms", 10000) * (3 if tier == "thorough" else 1)}
     with tempfile.NamedTemporaryFile("w", suffix=".json", delete=False) as f:
         json.dump(spec, f); specfile = f.name
@@ -166,6 +166,19 @@ def main():
         cgroups = {}
         for r in canaries: cgroups.setdefault((r["unit"], r["name"], r["path"].split("path")[0]), []).append(r["status"])
         # a canary (a deliberately false clause) must fail on at least one path of its scenario
+        # thorough tier: every obligation z3 proved with a non-trivial query is re-checked by cvc5 on the SAME query (assumptions + congruence
+        # lemmas + goal); `sat` from cvc5 is a disagreement between the two back ends = engine error; `unknown`/timeout is only counted
+        second = {"unsat": 0, "unknown": 0, "sat": 0, "skipped_case_split_or_trivial": 0}
+        if tier == "thorough":
+            todo = [r for r in obligations if r["status"] == "proved"]
+            with ThreadPoolExecutor(max_workers=14) as ex2:
+                outs = list(ex2.map(lambda r: cvc5_second_opinion(r.get("deciding_query"), 10) if r.get("deciding_query") else "skip", todo))
+            for r, o in zip(todo, outs):
+                if o == "skip" or o is None: second["skipped_case_split_or_trivial"] += 1
+                else:
+                    second[o] += 1
+                    if o == "unsat": r["backend"] = r["backend"] + "+cvc5"
+                    if o == "sat": engine_errors.append(f"back ends disagree on {r['name']} ({r['path']}): z3 unsat, cvc5 sat")
         vacuous = [k[1] for k, sts in cgroups.items() if all(x == "proved" for x in sts)] + [r["name"] + ":" + r["detail"] for r in guards if r["status"] != "proved"]
         refuted = [r for r in obligations if r["status"] == "refuted"]
         unknown = [r for r in obligations if r["status"] == "unknown"]
@@ -247,7 +260,7 @@ def main():
                "solver_time_s": round(sum(r["secs"] for r in obligations + canaries), 3),
                "paths_explored": sum(f.get("paths") or 0 for f in funcs), "paths_pruned": sum(f.get("pruned") or 0 for f in funcs),
                "canaries_refuted": sum(r["status"] != "proved" for r in canaries), "canaries_total": len(canaries),
-               "vacuity_guards": len(guards),
+               "vacuity_guards": len(guards), "second_solver_cvc5": second,
                "not_discharged": [{"obligation": r["name"], "path": r["path"], "status": r["status"], "known_finding": r.get("known_finding")} for r in obligations if r["status"] != "proved"][:40],
                "lean": ({"theorems": {t: lean["theorems"].get(t) for t in P.get("lean", [])}, "links": P.get("links", {}), "toolchain": lean.get("toolchain")} if lean else None),
                "bounded": hb, "samples": samples,
